@@ -15,6 +15,11 @@ CONSTANTS
   Menu = {}
   Moods = {}
   MaxReorgs = 0
+  MsgLates = {}
+  AucLates = {}
+  SubLates = {}
+  AttLates = {}
+  MaxHeld = 2
   Fams = {}
 INVARIANTS JobsBounded
 CONSTRAINT HWM
